@@ -405,6 +405,8 @@ func (u *Universe) preamble() string {
 	b.WriteString("(declare-datatypes ((Iface 0)) (((mk_iface (if_tag Int) (if_val Int)))))\n")
 	b.WriteString("(declare-datatypes ((Time 0)) (((mk_time (t_ns Int) (t_loc Int)))))\n")
 	b.WriteString("(define-fun slice_nil () Slice (mk_slice 0 0 0 0))\n")
+	b.WriteString("(declare-fun sl_ix (Int Int) Int)\n")
+	b.WriteString("(assert (forall ((o Int) (k Int)) (! (= (sl_ix o k) (+ o k)) :pattern ((sl_ix o k)))))\n")
 	b.WriteString("(define-fun iface_nil () Iface (mk_iface 0 0))\n")
 	b.WriteString("(define-fun time_zero_ns () Int (- 62135596800000000000))\n")
 	b.WriteString("(define-fun time_zero () Time (mk_time time_zero_ns 0))\n")
